@@ -152,7 +152,7 @@ def make_rule(rname):
 # ---------------------------------------------------------------------------------------------------
 # Enumeration
 # ---------------------------------------------------------------------------------------------------
-BOUNDS = {"quick": {0: 0, 1: 9, 2: 2, 3: 1}, "thorough": {0: 0, 1: 9, 2: 4, 3: 3}}
+BOUNDS = {"quick": {0: 0, 1: 9, 2: 2, 3: 1}, "thorough": {0: 0, 1: 9, 2: 9, 3: 3}}
 
 
 def _driver_for(k, rname):
@@ -468,19 +468,28 @@ def _evaluate(item):
     return {"per_api": per_api, "infos": infos, "host": host, "insts": insts, "results": results}
 
 
-def _primary(per_api):
-    """most severe kind over the entry points -> (kind, [apis showing it], detail)"""
-    best = None
+FAMILY = {"raised": "raised", "invalid-checker": "invalid", "invalid-wf": "invalid", "ort-load": "invalid",
+          "ort-run": "invalid", "not-equivalent": "not-equivalent", "signature": "structure",
+          "init-changed": "structure", "unmatched-changed": "structure", "removed-unremovable": "structure",
+          "fn-body": "fn-body", "not-applied": "not-applied", "count-mismatch": "not-applied"}
+
+
+def _families(per_api):
+    """{family: (most severe kind of the family over the entry points, [apis showing the family], detail)}"""
+    out = {}
     for api in APIS:
         for kind, detail in per_api.get(api, []):
+            fam = FAMILY[kind]
             rank = SEVERITY.index(kind)
-            if best is None or rank < best[0]:
-                best = (rank, kind, detail)
-    if best is None:
-        return None
-    kind = best[1]
-    apis = [a for a in APIS if any(k == kind for k, _ in per_api.get(a, []))]
-    return kind, apis, best[2]
+            cur = out.get(fam)
+            if cur is None:
+                out[fam] = [rank, kind, [api], detail]
+            else:
+                if rank < cur[0]:
+                    cur[0], cur[1], cur[3] = rank, kind, detail
+                if api not in cur[2]:
+                    cur[2].append(api)
+    return {f: (v[1], v[2], v[3]) for f, v in out.items()}
 
 
 def _placement(item, apis):
@@ -493,25 +502,36 @@ def _placement(item, apis):
     return s
 
 
-_PRIMARY_CACHE = {}   # per worker; evaluation is deterministic, so memoising it cannot change any result
+_FAM_CACHE = {}   # per worker; evaluation is deterministic, so memoising it cannot change any result
 
 
-def _minimise(item, kind, budget=24):
-    """Greedy reduction of the host while the primary violation kind persists."""
+def _spec_key(c):
+    return json.dumps([c["rule"], c["blocks"], c["extra"], c["meta"], c["clash"]])
+
+
+def _fams_of(cand):
+    """-> ({family: (kind, apis)}, evaluated?)"""
+    ck = _spec_key(cand)
+    ran = False
+    if ck not in _FAM_CACHE:
+        ran = True
+        ev = _evaluate(cand)
+        fams = {} if (ev is None or "skip" in ev) else _families(ev["per_api"])
+        _FAM_CACHE[ck] = {f: (v[0], v[1]) for f, v in fams.items()}
+    return _FAM_CACHE[ck], ran
+
+
+def _minimise(item, family, budget=24):
+    """Greedy reduction of the host while a violation of the same family persists."""
     cur = json.loads(json.dumps(item))
     pk = item["kind"]
     runs = 0
 
     def still(cand):
         nonlocal runs
-        ck = json.dumps([cand["rule"], cand["blocks"], cand["extra"], cand["meta"], cand["clash"]])
-        if ck not in _PRIMARY_CACHE:
-            runs += 1
-            ev = _evaluate(cand)
-            pr = None if (ev is None or "skip" in ev) else _primary(ev["per_api"])
-            _PRIMARY_CACHE[ck] = None if pr is None else (pr[0], pr[1])
-        pr = _PRIMARY_CACHE[ck]
-        return pr is not None and pr[0] == kind
+        fams, ran = _fams_of(cand)
+        runs += int(ran)
+        return family in fams
 
     changed = True
     while changed and runs < budget:
@@ -604,24 +624,25 @@ def execute(item):
                 counts[k2] += v2
     nrem = sum(1 for i in insts if i.removable)
     outcome = f"{'fired' if fired_any else 'nofire'}:count={cnt}:inst={min(len(insts), 5)}:removable={min(nrem, 5)}"
-    pr = _primary(per_api)
+    fams = _families(per_api)
+    _FAM_CACHE[_spec_key(item)] = {f: (v[0], v[1]) for f, v in fams.items()}
     viols = []
-    if pr is not None:
-        kind, apis, detail = pr
-        mini, runs = _minimise(item, kind)
+    order = sorted(fams, key=lambda f: SEVERITY.index(fams[f][0]))
+    for fam in order:
+        kind, apis, detail = fams[fam]
+        mini, runs = _minimise(item, fam)
         counts["minimisation_runs"] += runs
-        ck = json.dumps([mini["rule"], mini["blocks"], mini["extra"], mini["meta"], mini["clash"]])
-        mpr = _PRIMARY_CACHE.get(ck)
-        if mpr is None:
-            mev = _evaluate(mini)
-            mpr = _primary(mev["per_api"]) if mev and "per_api" in mev else None
-        if mpr is None or mpr[0] != kind:
-            mini, mpr = item, pr
-        key = f"C07|{kind}|{item['rule']}|{_placement(mini, mpr[1])}"
+        mf, _ = _fams_of(mini)
+        if fam in mf:
+            mkind, mapis = mf[fam]
+        else:
+            mini, mkind, mapis = item, kind, apis
+        key = f"C07|{mkind}|{item['rule']}|{_placement(mini, mapis)}"
         viols.append({"key": key, "detail": {"kind": kind, "apis": apis, "what": detail,
                                              "all": {a: [[k, str(d)[:200]] for k, d in per_api.get(a, [])] for a in APIS},
                                              "minimal_host": {k: mini[k] for k in ("blocks", "extra", "meta", "clash")}}})
-        outcome = "viol:" + kind
+    if viols:
+        outcome = "viol:" + "+".join(fams[f][0] for f in order)
     show = None
     if viols or not item["blocks"] or len(item["blocks"]) == 3:
         show = H.render(ev["host"])
